@@ -290,7 +290,8 @@ func ruleMerkleUnrolled(c *Ctx) {
 
 func isGetHashFn(info *types.Info, call *ast.CallExpr) bool {
 	f := callee(info, call) // a package-level func variable in both packages
-	if f == nil || f.Name() != "GetHashFn" || f.Pkg() == nil {
+	// (Sha256Repeat is the constructor behind GetHashFn: one digest object and scratch buffer per returned function)
+	if f == nil || (f.Name() != "GetHashFn" && f.Name() != "Sha256Repeat") || f.Pkg() == nil {
 		return false
 	}
 	p := f.Pkg().Path()
